@@ -318,6 +318,17 @@ func TestVerif_C12(t *testing.T) {
 		if err := kit.LoadReplay(p, &c); err != nil {
 			t.Fatal(err)
 		}
+		if c.Fn == "FieldData.Parse" {
+			in, _ := hex.DecodeString(c.Data)
+			clause, detail := c12RunFieldParse(in, nil)
+			rec.Eval(1)
+			rec.Nontrivial("replay/1")
+			rec.Nontrivial("replay/2")
+			if clause != "" {
+				rec.Violation("FieldData.Parse/"+clause+"/replay", detail, c)
+			}
+			return
+		}
 		runOne(c)
 		return
 	}
@@ -409,6 +420,8 @@ func TestVerif_C12(t *testing.T) {
 	}
 	// (4) round trips
 	c12RoundTrips(rec, kit.SubRand(kit.Seed(), "C12/rt"))
+	// (5) column-definition packets
+	c12FieldCases(rec, pre, kit.SubRand(kit.Seed(), "C12/field"))
 }
 
 func c12RoundTrips(rec *kit.Rec, r *kit.Rand) {
